@@ -224,8 +224,8 @@ def nc_body(case, ctx, tmp):
         got_keys = list(f.keys())
         if sorted(got_keys) != sorted(names):
             ctx.v(ID, "nc:open-keys", "open_nc(f).keys() = %r, expected %r" % (got_keys, names))
-        if tuple(f.dims) != tuple(fm.dims):
-            ctx.v(ID, "nc:file-dims", "open_nc(f).dims = %r, expected creation order %r" % (tuple(f.dims), tuple(fm.dims)))
+        if set(f.dims) != set(fm.dims):
+            ctx.v(ID, "nc:file-dims", "open_nc(f).dims = %r, expected the dimensions %r" % (tuple(f.dims), tuple(fm.dims)))
     vk = tuple(sorted(set(v[2] for v in fm.vars.values())))
     return ('nc', fmt, tuple(kinds), vk, tuple(sorted(set(v[0].ndim for v in fm.vars.values()))))
 
